@@ -4997,13 +4997,9 @@ class Entity(object, metaclass=EntityMeta):
             save_pos = obj._save_pos_
 
             def undo_func():
-                if obj._status_ == 'marked_to_delete':
-                    assert objects_to_save
-                    obj2 = objects_to_save.pop()
-                    assert obj2 is obj
-                    if save_pos is not None:
-                        assert objects_to_save[save_pos] is None
-                        objects_to_save[save_pos] = obj
+                if obj._status_ == 'cancelled':
+                    assert objects_to_save[save_pos] is None
+                    objects_to_save[save_pos] = obj
                     obj._save_pos_ = save_pos
                 obj._status_ = status
                 for cache_index, old_key in undo_list: cache_index[old_key] = obj
@@ -5079,7 +5075,17 @@ class Entity(object, metaclass=EntityMeta):
                     obj._save_pos_ = len(objects_to_save)
                     objects_to_save.append(obj)
                     obj._status_ = 'marked_to_delete'
+                    modified = cache.modified
                     cache.modified = True
+                    def undo_save():
+                        cache.modified = modified  # registered now: objects that the delete cascaded to were appended earlier
+                        obj2 = objects_to_save.pop()
+                        assert obj2 is obj
+                        if save_pos is not None:
+                            assert objects_to_save[save_pos] is None
+                            objects_to_save[save_pos] = obj
+                        obj._save_pos_ = save_pos
+                    undo_funcs.append(undo_save)
             except:
                 if not is_recursive_call:
                     for undo_func in reversed(undo_funcs): undo_func()
